@@ -301,7 +301,63 @@ def raw_variants(sc):
     return dict(sid=sc["sid"], ev=ev)
 
 
+def source(sc):
+    """The parsed element data agree with an independent reading of the source file (vh/srcread.py): the file - and variants of
+    it that put documented record fields to use which the stock files leave at their defaults - is read by the library and
+    solved; the reported bus voltages must balance the network that the independent reader takes from the same file."""
+    andes = andes_mod()
+    from . import srcread
+    from .common import case_path
+    d = scratch_dir("src")
+    ev = []
+    try:
+        for kinds in [[]] + [list(k) for k in sc.get("variants", [])]:
+            rec = dict(e="src", fmt=("mpc" if sc["case"].endswith(".m") else "raw"), variant="+".join("%s%d" % (k, w) for k, w in kinds) or "as shipped",
+                       raised=False, converged=True, balanced=True, decided=True)
+            path = case_path(sc["case"])
+            what = []
+            try:
+                for j, (kind, which) in enumerate(kinds):
+                    dst = os.path.join(d, "v%d_%d.raw" % (len(ev), j))
+                    w = srcread.raw_variant(path, dst, kind, which)
+                    if w is None:
+                        path = None
+                        break
+                    what.append(w)
+                    path = dst
+                if path is None:
+                    continue
+                rec["what"] = what
+                net = srcread.read_source(path)
+                ss = andes.load(path, **sys_kwargs())
+                if ss is None:
+                    raise RuntimeError("andes.load returned None")
+                ss.PFlow.config.max_iter = 40
+                rec["converged"] = bool(ss.PFlow.run())
+                if rec["converged"]:
+                    V = {idx: ss.Bus.v.v[k] * np.exp(1j * ss.Bus.a.v[k]) for k, idx in enumerate(ss.Bus.idx.v)}
+                    r = srcread.source_balance(net, V, tol=float(ss.PFlow.config.tol))
+                    rec["balanced"] = bool(not r["bad"])
+                    rec["decided"] = bool(not r["undecided"])
+                    if r["undecided"]:
+                        rec["balanced"] = True            # elements the independent reader does not model: nothing is demanded
+                    rec["checked"] = r["checked"]
+                    rec["undecided"] = r["undecided"][:5]
+                    rec["bad"] = r["bad"][:6]
+                    rec["same_buses"] = bool(all(n in V for n in net["buses"]))
+                    rec["balanced"] = rec["balanced"] and rec["same_buses"]
+            except Exception as ex:
+                rec["raised"] = True
+                rec["raised_text"] = "%s: %s" % (type(ex).__name__, str(ex)[:160])
+            ev.append(rec)
+    finally:
+        shutil.rmtree(d, ignore_errors=True)
+    return dict(sid=sc["sid"], ev=ev)
+
+
 def task(sc):
+    if sc["kind"] == "source":
+        return source(sc)
     if sc["kind"] == "raw":
         return raw_variants(sc)
     return matpower(sc) if sc["kind"] == "matpower" else roundtrip(sc)
